@@ -31,6 +31,8 @@ def plan(tier):
     base = {"case_time_limit": 600,
             "required_classes": ["call:evolve", "call:evolve-imag", "call:add", "call:apply", "call:contract", "call:measure",
                                  "call:evolve_exact", "call:variational_compress", "call:expand_bond_dimension", "call:dump",
+                                 "imag-complex-history", "imag-time-complex-H:ps2", "imag-time-complex-H:ps", "imag-time-complex-H:cmf",
+                                 "imag-time-complex-H:vmf", "imag-time-complex-H:pc", "imag-time-complex-H:real-state",
                                  "mutate:scale-inplace", "mutate:setitem", "mutate:array-slice", "mutate:compress-lossy",
                                  "bond-above-own-limit", "mpdm", "offset!=0", "tree", "call:tree-evolve-imag", "call:tree-evolve",
                                  "call:tree-apply", "call:tree-add", "tree-mutate:array-slice", "tree-mutate:compress-lossy",
@@ -145,6 +147,8 @@ def run_case(ctx):
         return c13_tree.run_tree_case(ctx)
     if ctx.idx % 10 == 7:
         return ofs_history(ctx)
+    if ctx.idx % 10 == 3:
+        return imag_complex_history(ctx)
     em = evolve.hermitian_model(ctx, nsite=(2, 5), max_dim=120, min_dim=6)
     gm, model = em.gm, em.model
     qntot = None
@@ -253,9 +257,12 @@ def run_case(ctx):
                 # are redundant or incompatible with the sector
                 a.mp.ensure_right_canonical()
                 a.mp.canonicalise()
-            if imag and hmpo.is_complex and not a.mp.is_complex:
-                ctx.cls("observed:imag-time-real-state-complex-H")
-                continue          # judged by C10 (real state, complex Hermitian H, imaginary time)
+            if imag and hmpo.is_complex:
+                # (whether the RESULT is right is C10's business; here the call is watched for what it does to its input -
+                # each scheme has its own copy / to_complex branch for exactly this combination)
+                ctx.cls("imag-time-complex-H:" + sc.family)
+                if not a.mp.is_complex:
+                    ctx.cls("imag-time-complex-H:real-state")
             dt = (0.2 / em.hnorm) * (-1j if imag else 1.0)
             a.mp.evolve_config = sc.make_cfg()
             env.reseed_global(rng)
@@ -381,6 +388,67 @@ def mutate(ctx, mon, target):
     ctx.count("mutations")
     mon.trace.append(f"{target.name}.{name}")
     mon.verify(f"in-place-{name}", exempt=(target,), mutated=target)
+
+
+def imag_complex_history(ctx):
+    """Imaginary-time steps with a COMPLEX Hermitian Hamiltonian, scheme by scheme: every scheme has its own branch that
+    decides between copying and converting the input for exactly this combination.  The input (real or complex, with a
+    prefactor) must be what it was, and the result must be another object that shares no tensor memory with it."""
+    rng = ctx.rng
+    ctx.cls("imag-complex-history")
+    em = None
+    for _ in range(30):
+        cand = evolve.hermitian_model(ctx, nsite=(2, 5), max_dim=100, min_dim=6)
+        if cand.complex_h:
+            em = cand
+            break
+    if em is None:
+        ctx.refuse("no complex Hermitian Hamiltonian generated")
+        return
+    gm = em.gm
+    qntot = None
+    for _ in range(10):
+        q = states.pick_sector(rng, gm)
+        if states.sector_dim(gm, q) >= 3:
+            qntot = q
+            break
+    if qntot is None:
+        ctx.refuse("no sector with >= 3 states")
+        return
+    reps = {}
+    for sc in evolve.scheme_list():
+        if sc.imag_ok and not sc.name.startswith("pc-tdrk-"):
+            reps.setdefault((sc.family, sc.name.split("-")[-1] if sc.family in ("ps", "ps2", "cmf") else ""), sc)
+    todo = list(reps.values())
+    rng.shuffle(todo)
+    for sc in todo[:int(rng.integers(3, 7))]:
+        a = evolve.generic_full_state(ctx, em, qntot)
+        if a is None:
+            ctx.refuse("constructor refused")
+            return
+        real_state = bool(rng.random() < 0.5)
+        if not real_state:
+            states.complexify(rng, a)
+        if rng.random() < 0.5:
+            a.coeff = a.coeff * (2.0 if real_state else complex(0.6, 0.8))
+        if sc.family in ("vmf", "cmf"):
+            a.ensure_right_canonical()
+            a.canonicalise()
+        a.evolve_config = sc.make_cfg()
+        fp = fingerprint(a)
+        dtypes = [np.asarray(a[i].array).dtype for i in range(a.site_num)]
+        ctx.cls("imag-time-complex-H:" + sc.family, "imag-time-complex-H:" + ("real-state" if real_state else "complex-state"))
+        ctx.count("calls")
+        new = evolve.guarded_evolve(ctx, a, em.mpo, -0.2j / em.hnorm, bool(rng.random() < 0.5), f"evolve|{sc.family}|imag|complex-H", sc.family)
+        ctx.count("fingerprints_compared")
+        ctx.check(new is not a, f"imag-complex-H|evolve|{sc.family}|returns-its-input-object")
+        ctx.close(fingerprint(a), fp, 1e-10, f"imag-complex-H|evolve|{sc.family}|changes-state-it-was-not-asked-to-modify",
+                  scale=max(float(np.linalg.norm(fp)), 1e-300), scheme=sc.name, real_state=real_state)
+        ctx.check([np.asarray(a[i].array).dtype for i in range(a.site_num)] == dtypes, f"imag-complex-H|evolve|{sc.family}|input-dtype-changed")
+        if new is not a:
+            shared = [i for i in range(min(a.site_num, new.site_num)) if np.shares_memory(np.asarray(a[i].array), np.asarray(new[i].array))]
+            ctx.check(not shared, f"imag-complex-H|evolve|{sc.family}|result-shares-tensor-memory-with-its-input", sites=shared)
+        ctx.nontrivial(("imag-complex-H", sc.name, real_state, env.dhash(gm.describe())))
 
 
 def ofs_history(ctx):
